@@ -90,6 +90,7 @@ def main(argv=None) -> int:
 
     # ---- 2./3. correspondence legs and oracle -------------------------------------------------
     internal_error = None
+    uncaught = False
     try:
         # corpus first: minimised past failures / `fixed:` witnesses are replayed on the real code
         import glob
@@ -100,15 +101,22 @@ def main(argv=None) -> int:
             if not ok:
                 ctx.fail(payload.get("kind", "corpus"), payload.get("input", {}), f"corpus witness {os.path.basename(fn)} fails: {msg}")
         mod.run(ctx)
-    except Exception:
-        internal_error = traceback.format_exc()
+    except Exception as e:
+        if core.raised_in_code_under_test(e):
+            ctx.diverge("uncaught_exception", {}, "the code under test raised where the harness expects no exception: " + traceback.format_exc()[-1200:])
+            uncaught = True
+        else:
+            internal_error = traceback.format_exc()
     corr_ok = not ctx.divergences
-    if internal_error is None and (not proof_ok or not corr_ok) and not ctx.failures and hasattr(mod, "escalate"):
+    if internal_error is None and not uncaught and (not proof_ok or not corr_ok) and not ctx.failures and hasattr(mod, "escalate"):
         ctx.escalated = True
         try:
             mod.escalate(ctx)
-        except Exception:
-            internal_error = traceback.format_exc()
+        except Exception as e:
+            if core.raised_in_code_under_test(e):
+                ctx.diverge("uncaught_exception", {}, "the code under test raised where the harness expects no exception: " + traceback.format_exc()[-1200:])
+            else:
+                internal_error = traceback.format_exc()
 
     # ---- 4. classify failing inputs -------------------------------------------------------------
     known = [k for k in load_known() if k.prop == prop]
